@@ -18,16 +18,23 @@
 #include <mutex>
 #include <algorithm>
 #include <set>
+#include <system_error>
 #include <thread>
 #include <sys/syscall.h>
 #include <unistd.h>
 
 using tulz::ThreadPool;
 
+#if defined(__SANITIZE_ADDRESS__)
+constexpr bool kInjectCreateFailure = false;
+#else
+constexpr bool kInjectCreateFailure = true;
+#endif
+
 namespace {
 
 struct Cover {
-    uint64_t concurrentSubmits = 0;
+    uint64_t concurrentSubmits = 0, startFailuresInjected = 0;
     uint64_t programs = 0, ops = 0, submitted = 0, ran = 0, dropped = 0, stops = 0, clears = 0, drains = 0, restarts = 0, closures = 0;
     uint64_t stopsWithRunningTask = 0, clearsWithRunningTask = 0, stopsWithWorkerInPreBlock = 0, singleWorkerPrograms = 0, maxWorkersSeen = 0, nontrivialCases = 0;
     std::vector<uint64_t> fps;
@@ -149,6 +156,7 @@ struct Program {
     int segment = 0;
     int drainedUpTo = 0;            // tasks [0, drainedUpTo) have been accounted for by a drain/clear/stop
     uint64_t createsAtEpochStart = 0;
+    bool pendingKick = false;       // a start() failed in thread creation: tasks may be queued with no worker alive
     rt::Hash hist;
     std::string log;
 
@@ -172,6 +180,13 @@ struct Program {
         r.submit.store(spy::stamp());
         gPhase = "start";
         bool wasStopped = !pool->isRunning();
+        // Fault injection (plain build only: on this path the unchanged pool leaks its half-built worker objects, which
+        // LeakSanitizer would report although no property speaks about them): the worker thread cannot be created.
+        // start() then throws; the task it was given still belongs to the pool and must run or be destroyed later.
+        bool inject = kInjectCreateFailure && !pendingKick && rng.chance(20);
+        bool threw = false;
+        if (inject) spy::failNextCreate();
+        try {
         if (r.closure) {
             ++C.closures;
             note("startC" + std::to_string(id));
@@ -189,7 +204,19 @@ struct Program {
             note("start" + std::to_string(id));
             pool->start(new Task(id));
         }
+        } catch (const std::system_error &) { threw = true; }
+        if (inject) spy::cancelFailNextCreate();
         ++C.submitted;
+        if (threw) {
+            if (!inject) { fail("C08", "start-threw", "start", "start() threw std::system_error although thread creation was not made to fail"); return; }
+            note("(creation-failed)");
+            ++C.startFailuresInjected;
+            pendingKick = true;          // no worker may exist now: the next start() has to bring one up before anybody waits
+            if (wasStopped) { ++C.restarts; createsAtEpochStart = spy::counters().creates.load(); }
+            gPhase = "idle";
+            return;
+        }
+        pendingKick = false;
         if (wasStopped) { ++C.restarts; createsAtEpochStart = spy::counters().creates.load() - 1; }
         int tc = pool->getThreadCount();
         C.maxWorkersSeen = std::max<uint64_t>(C.maxWorkersSeen, (uint64_t) tc);
@@ -235,6 +262,7 @@ struct Program {
 
     // waits until every task of the current segment has run and been destroyed
     void drain() {
+        if (pendingKick) submit();
         note("drain");
         ++C.drains;
         gPhase = "waitDrain";
@@ -432,7 +460,7 @@ int main(int argc, char **argv) {
     }
     rt::finish(rt::Json().kv("engine", "h_pool").kv("programs", C.programs).kv("ops", C.ops).kv("tasksSubmitted", C.submitted).kv("tasksRan", C.ran)
                    .kv("tasksDropped", C.dropped).kv("closureTasks", C.closures).kv("stops", C.stops).kv("clears", C.clears).kv("drains", C.drains)
-                   .kv("restarts", C.restarts).kv("concurrentSubmitBursts", C.concurrentSubmits).kv("stopsWithRunningTask", C.stopsWithRunningTask).kv("clearsWithRunningTask", C.clearsWithRunningTask)
+                   .kv("restarts", C.restarts).kv("concurrentSubmitBursts", C.concurrentSubmits).kv("threadCreationFailuresInjected", C.startFailuresInjected).kv("stopsWithRunningTask", C.stopsWithRunningTask).kv("clearsWithRunningTask", C.clearsWithRunningTask)
                    .kv("stopsWithWorkerInPreBlockWindow", C.stopsWithWorkerInPreBlock).kv("singleWorkerPrograms", C.singleWorkerPrograms)
                    .kv("maxWorkersSeen", C.maxWorkersSeen).kv("nontrivialCases", C.nontrivialCases)
                    .kv("delaysCondEntry", k.condEntry.load()).kv("delaysAfterWake", k.afterWake.load()).kv("delaysOther", k.beforeLock.load() + k.afterUnlock.load() + k.beforeNotify.load() + k.threadStart.load())
